@@ -385,6 +385,19 @@ func c19IncludeAppliedOnEveryPath(r *core.Report) {
 			return true
 		})
 	}
+	if predNode == nil && includeList != nil {
+		// the include list is handed to an any-of helper inside the predicate
+		for _, l := range allLits(f) {
+			lg := r.Prog.Graph(l)
+			for _, nd := range stmtNodes(lg) {
+				if as, ok := nd.Ast.(*ast.AssignStmt); ok && predNode == nil {
+					if kind, _, at := quantifierCall(r.Prog, l, lg, as, includeList); kind == "any" && at != nil {
+						predFn, predNode = l, at
+					}
+				}
+			}
+		}
+	}
 	if scanNode == nil || predNode == nil || loaded == nil {
 		r.Undecided(rule, key, posP(r, f.Pos()), "the per-slot scan loop, the predicate's any-of test or the index-loaded flag not found")
 		return
